@@ -6,7 +6,9 @@ from .gates import _gate_eval, GATED
 ADDING = {'insert', 'entry', 'extend', 'append', 'or_default', 'or_insert', 'or_insert_with', 'push', 'try_insert'}
 EMPTYING = {'take', 'replace', 'drain', 'clear'}
 
+ORS_MAP = {'C04': lambda i: i.startswith('orswot') or i in ('floor', 'anchor', 'internal'), 'C05': lambda i: i.startswith('map') or i in ('floor', 'anchor', 'internal')}
 TYPES = [('orswot', ORSWOT, 'crdts::orswot::Op', 'Add'), ('map', MAP, 'crdts::map::Op', 'Up')]
+EL = {'orswot': 'C04', 'map': 'C05'}
 
 
 def roles(facts, adt):
@@ -90,7 +92,10 @@ def defer_classifier(found, clock_field):
 
 
 @rule('DEF-DECIDE', {
+    'C09': 'an element whose adds are all covered by an applied remove must stay absent: a remove that arrived first has to be remembered in full',
     'C08': 'deferring only when the remove clock is strictly ahead loses removes whose context is concurrent with the replica',
+    'C04': 'a remove the replica has applied must still cover the adds it observed when they arrive later (all delivery schedules)',
+    'C05': 'same for key removes of Map',
     'C20': 'storing a remove the replica clock already covers leaves a stale pending remove (residue)',
 }, floor=2)
 def def_decide(ctx):
@@ -135,9 +140,9 @@ def def_decide(ctx):
             if lost:
                 ctx.fail(name + '/must', body, 'a remove whose clock is %s the replica clock can return without being remembered'
                          % ' / '.join({'Gt': 'ahead of', 'None': 'concurrent with'}[o] for o in lost),
-                         line=block_line(it, sites[0]), details=det, props=['C08'])
+                         line=block_line(it, sites[0]), details=det, props=['C08', 'C09', EL[inst]])
             else:
-                ctx.ok(name + '/must', body, 'remembered under {Gt, None}', line=block_line(it, sites[0]), details=det, props=['C08'])
+                ctx.ok(name + '/must', body, 'remembered under {Gt, None}', line=block_line(it, sites[0]), details=det, props=['C08', 'C09', EL[inst]])
             if stale:
                 ctx.fail(name + '/may', body, 'a remove already covered by the replica clock (%s) is stored as pending'
                          % ','.join(stale), line=block_line(it, may[stale[0]][0]), details=det, props=['C20'])
@@ -145,7 +150,44 @@ def def_decide(ctx):
                 ctx.ok(name + '/may', body, 'stored only under {Gt, None}', line=block_line(it, sites[0]), details=det, props=['C20'])
             ctx.check(keyed, name + '/key', body, 'pending remove is keyed by the compared clock',
                       'the clock stored in the pending table is not the clock that was compared', details=det,
-                      props=['C08'])
+                      props=['C08', 'C09', EL[inst]])
+            # accumulate: elements already pending under the same clock must not be discarded
+            inserts, unions = [], []
+            for bb2, c2 in it.calls.items():
+                n = call_name(c2.term)
+                if not c2.args or not c2.args[0].is_mut_ref:
+                    continue
+                pp = param_path(c2.args[0].val)
+                if n in ('insert', 'try_insert') and pp and pp[0] == 1 and pp[1] == (r['deferred'],) and len(c2.args) == 3:
+                    inserts.append(bb2)
+                ev = elem_value_of(c2.args[0].val)
+                if n in ('extend', 'append', 'insert', 'union', 'extend_from_slice') and ev and param_path(ev[0]) == (1, (r['deferred'],)):
+                    unions.append(bb2)
+
+            def present_atom(t):
+                if t[0] == 'discr' and is_call(t[1], ('get', 'get_mut')) and len(t[1][2]) == 2 and param_path(t[1][2][0]) == (1, (r['deferred'],)):
+                    return ('map', 'present', {True: 1, False: 0})
+                if is_call(t, ('contains_key',)) and len(t[2]) == 2 and param_path(t[2][0]) == (1, (r['deferred'],)):
+                    return 'present'
+                return None
+            acc = {}
+            hit = False
+            for pres in (True, False):
+                ev3 = Evaluator(facts, classify=defer_classifier([], r['clock']), bool_atom=present_atom, assumption={'defer': GT, 'present': pres})
+                rc3 = Reach(facts, body, ev3)
+                acc[pres] = (any(b in rc3.reachable for b in inserts), rc3.must_pass(unions) if unions else False,
+                             rc3.must_pass(inserts + unions) if (inserts or unions) else False)
+                hit = hit or bool(ev3.hits.get('present'))
+            aerrs = []
+            if inserts and (not hit or acc[True][0]):
+                aerrs.append('a remove deferred under a clock that already has pending elements overwrites them (insert replaces the stored set)')
+            elif inserts and not acc[True][1]:
+                aerrs.append('elements already pending under the same clock are not merged with the new ones')
+            elif not inserts and not acc[True][1]:
+                aerrs.append('the new elements are not added to the pending set')
+            ctx.check(not aerrs, name + '/accumulate', body, 'pending elements under the same clock are accumulated, never replaced',
+                      aerrs[0] if aerrs else '', details={'present -> (insert may, union must, any must)': {str(k): v for k, v in acc.items()}},
+                      props=['C08', 'C09', EL[inst]])
 
 
 def _rm_elem_sites(facts, it, r, sub=()):
@@ -183,7 +225,8 @@ def rm(ctx):
         if not rms:
             ctx.shape(inst, None, 'no remove routine found (see DEF-DECIDE)', props=props)
             continue
-        for body, it, _sites in rms:
+        rms_with_elems = [(b, i, s_) for b, i, s_ in rms if _rm_elem_sites(facts, i, r, () if inst == 'orswot' else ('clock',))]
+        for body, it, _sites in (rms_with_elems or rms):
             sub = () if inst == 'orswot' else ('clock',)
             found = []
             Reach(facts, body, Evaluator(facts, classify=defer_classifier(found, r['clock'])))
@@ -301,9 +344,11 @@ def _reexam_ok(facts, it, r, rc, start_blocks):
 
 
 @rule('DEF-REEXAM', {
+    'C04': 'Orswot: a remove that overtook an add must still remove it once the add arrives (membership at every replica, all schedules)',
+    'C05': 'Map: same for key removes',
     'C08': 'without re-examination after clock growth the late add that a pending remove covers stays forever',
     'C20': 'a pending remove that became covered is never dropped',
-}, floor=4)
+}, floor=4, inst_filter=ORS_MAP)
 def def_reexam(ctx):
     """After every growth of the replica clock (gated apply arm, merge) every path re-examines the pending removes."""
     facts = ctx.facts
@@ -352,9 +397,11 @@ def def_reexam(ctx):
 
 
 @rule('DEF-TAKE', {
+    'C04': 'Orswot: a remove that overtook an add must still remove it once the add arrives (membership at every replica, all schedules)',
+    'C05': 'Map: same for key removes',
     'C20': 'if the table is not emptied before re-applying, covered removes are never dropped',
     'C08': 're-applied removes that are still ahead must be re-deferred into a fresh table, not duplicated',
-}, floor=2)
+}, floor=2, inst_filter=ORS_MAP)
 def def_take(ctx):
     """The re-examination routine empties the pending table before replaying every entry of it through the remove routine."""
     facts = ctx.facts
@@ -416,9 +463,11 @@ def def_take(ctx):
 
 
 @rule('DEF-MERGE', {
+    'C04': 'Orswot: a remove that overtook an add must still remove it once the add arrives (membership at every replica, all schedules)',
+    'C05': 'Map: same for key removes',
     'C08': 'pending removes must travel inside merged states',
     'C03': 'op delivery of the remove would have left the same pending remove here',
-}, floor=2)
+}, floor=2, inst_filter=ORS_MAP)
 def def_merge(ctx):
     """merge replays every (clock, elements) of other's pending table through self's remove routine."""
     facts = ctx.facts
